@@ -128,6 +128,25 @@ fn msg_case(ctx: &mut Ctx, m: &AMsg, label: &str) {
     match &back {
         Ok((rem, got)) if rem.is_empty() && (veq(got, &nf.expected()) || sslv3_ext_either(m, got)) => {
             ctx.count("roundtrip.ok");
+            // the contents-level hello parsers must read the same bytes back to the same contents
+            match (&nf, got) {
+                (AMsg::Hs(AHs::ServerHello(_)), TlsMessage::Handshake(TlsMessageHandshake::ServerHello(want))) => {
+                    let r2 = parse_tls_handshake_server_hello(&bytes[4..]);
+                    ctx.eval();
+                    // (SSLv3 form: the serializer's `00 00` padding is not part of the hello and may be left over)
+                    if !matches!(&r2, Ok((rem, c)) if (rem.is_empty() || (want.version.0 == 0x0300 && *rem == [0u8, 0])) && veq(c, want)) {
+                        ctx.violation("c09:parse-back:ServerHello:contents-parser-differs".into(), json!({"bytes_hex": hex_short(&bytes), "contents_parser": format!("{:.200?}", r2)}));
+                    }
+                }
+                (AMsg::Hs(AHs::ClientHello(_)), TlsMessage::Handshake(TlsMessageHandshake::ClientHello(want))) => {
+                    let r2 = parse_tls_handshake_client_hello(&bytes[4..]);
+                    ctx.eval();
+                    if !matches!(&r2, Ok((rem, c)) if rem.is_empty() && veq(c, want)) {
+                        ctx.violation("c09:parse-back:ClientHello:contents-parser-differs".into(), json!({"bytes_hex": hex_short(&bytes), "contents_parser": format!("{:.200?}", r2)}));
+                    }
+                }
+                _ => {}
+            }
             // re-serialize the parsed value
             match got.serialize() {
                 Ok(b2) if b2 == bytes => ctx.count("reserialize.ok"),
